@@ -1,4 +1,195 @@
-import PoolModel.C07
+import PoolProofs.C07LemmasModify
+import PoolProofs.C07LemmasClose
+
+/-!
+# C07 — deposits, withdrawals, renewals and closures conserve the account's funds
+
+Headline theorems about the executable model `PoolModel/C07.lean` of `account/manager.go` /
+`account/interfaces.go`.  For all accounts, requested outputs, fee rates, heights, versions, collaborator faults and
+account-script functions `so`:
+
+* `C07_withdraw_conserves`, `C07_renew_conserves`, `C07_deposit_conserves`, `C07_close_conserves`: what an accepted
+  operation broadcasts and records (outpoint spent once, requested outputs verbatim, recorded value = value of the
+  re-created output = old + deposited − withdrawn − fee, fee = rate·weight/1000, fee ≥ relay floor, no dust, value
+  bounds, effect order `[auctioneerModify?] ++ [storeWrite, publish]`);
+* `C07_refusals_no_effect`: every refusal other than an injected collaborator fault has an empty effect trace, and
+  each refusal listed in the property is a refusal;
+* `expiry_window`: an accepted expiry lies in `[best+144, best+52560]` as integers (`expiry_window_wrap_rule_false`:
+  the `uint32` rule of the unrepaired code does not).
+
+`W` below is always `fullWeight tx w`: 4 × the serialised size of the broadcast transaction without witnesses + 2 +
+the estimated witness sizes – i.e. the estimator's weight is tied to the transaction really built.
+-/
+set_option linter.unusedSimpArgs false
+set_option linter.unusedVariables false
 namespace Pool.C07
-theorem placeholder : True := trivial
+open Pool.Gen.C07
+
+/-! ## expiry window -/
+
+/-- **expiry_window**: an expiry accepted by `validateAccountExpiry` is between one day and one year ahead of the
+best height, as integers (no `uint32` wrap corner: the bounds are computed in 64 bits – regenerated fact
+`expiryWindowWide`). -/
+theorem expiry_window (expiry best : UInt32) (h : validateAccountExpiry expiry best = .ok ()) :
+    best.toNat + 144 ≤ expiry.toNat ∧ expiry.toNat ≤ best.toNat + 52560 := by
+  have hw : expiryWindowWide = true := by decide
+  have h1 : minAccountExpiry = 144 := by decide
+  have h2 : maxAccountExpiry = 52560 := by decide
+  unfold validateAccountExpiry at h
+  simp only [hw, if_true] at h
+  split at h
+  · cases h
+  · split at h
+    · cases h
+    · omega
+
+example : validateAccountExpiry 800144 800000 = .ok () := by
+  simp [validateAccountExpiry, show expiryWindowWide = true from by decide, minAccountExpiry, maxAccountExpiry]
+
+/-- the window check as written before the repair: `uint32` sums that wrap -/
+def validateAccountExpiryWrap (expiry best : UInt32) : Bool :=
+  !(expiry < best + UInt32.ofNat minAccountExpiry) && !(expiry > best + UInt32.ofNat maxAccountExpiry)
+
+/-- the full window statement for the unrepaired `uint32` rule -/
+def expiry_window_wrap_statement : Prop :=
+  ∀ expiry best : UInt32, validateAccountExpiryWrap expiry best = true →
+    best.toNat + 144 ≤ expiry.toNat ∧ expiry.toNat ≤ best.toNat + 52560
+
+/-- … is false: best = 2^32 − 100, expiry = 100 (corpus/C07/defect-expiry-wrap.json replays it on the Go code) -/
+theorem expiry_window_wrap_rule_false : ¬ expiry_window_wrap_statement := by
+  intro h
+  have := h 100 4294967196 (by decide)
+  simp at this
+
+/-- the wrap corner needs a best height within a year of 2^32; below it both rules agree -/
+theorem expiry_window_wrap_partial (expiry best : UInt32) (hb : best.toNat + 52560 < 4294967296)
+    (h : validateAccountExpiryWrap expiry best = true) :
+    best.toNat + 144 ≤ expiry.toNat ∧ expiry.toNat ≤ best.toNat + 52560 := by
+  have h1 : minAccountExpiry = 144 := by decide
+  have h2 : maxAccountExpiry = 52560 := by decide
+  simp only [validateAccountExpiryWrap, h1, h2, Bool.and_eq_true, Bool.not_eq_true', decide_eq_false_iff_not,
+    UInt32.not_lt] at h
+  have e1 : (best + UInt32.ofNat 144).toNat = best.toNat + 144 := by
+    simp [UInt32.toNat_add]; omega
+  have e2 : (best + UInt32.ofNat 52560).toNat = best.toNat + 52560 := by
+    simp [UInt32.toNat_add]; omega
+  obtain ⟨ha, hb'⟩ := h
+  rw [UInt32.le_iff_toNat_le] at ha hb'
+  omega
+
+example : (4294000000 : UInt32).toNat + 52560 < 4294967296 ∧ validateAccountExpiryWrap 4294000200 4294000000 = true := by
+  decide
+
+
+/-! ## withdrawals and renewals -/
+
+/-- **C07_withdraw_conserves**: an accepted withdrawal satisfies `ModifySpec` (see its definition: the account
+outpoint is the only input; outputs = re-created account output + requested outputs verbatim; recorded value =
+value of the re-created output = old − withdrawn − fee with fee = rate·W/1000 ≥ 253·W/1000, W the full weight of
+the broadcast transaction; ≥ MinAccountValue; no dust; version not lowered; effects = [auctioneerModify?,
+storeWrite, publish]); the account was open and a requested expiry lies in the window. -/
+theorem C07_withdraw_conserves (so : ScriptOf) (hso : ScriptLen34 so) (a : Account) (outputs : List TxOut)
+    (rate : Int) (best eh : UInt32) (nv : Nat) (f : Faults)
+    (h : (withdraw so a outputs rate best eh nv f).refusal = none) :
+    a.state = StateOpen ∧ a.version ≤ nv ∧
+    (eh ≠ 0 → best.toNat + 144 ≤ eh.toNat ∧ eh.toNat ≤ best.toNat + 52560) ∧
+    ModifySpec so a outputs rate (determineWitnessType a best) (if eh ≠ 0 then some eh else none) nv
+      (withdraw so a outputs rate best eh nv f) := by
+  obtain ⟨hs, hv, ne, v, hne, hvau, heq⟩ := withdraw_inv h
+  rw [heq] at h ⊢
+  have hspec := modify_spec hso (by decide : Action.withdraw ≠ .close) hvau h
+  rcases optExpiry_ok hne with ⟨h0, hn⟩ | ⟨h0, hn, hval⟩
+  · subst hn
+    refine ⟨hs, hv, fun hx => absurd h0 hx, ?_⟩
+    simpa [h0] using hspec
+  · subst hn
+    refine ⟨hs, hv, fun _ => expiry_window _ _ hval, ?_⟩
+    simpa [h0] using hspec
+
+/-- **C07_renew_conserves**: an accepted renewal satisfies `ModifySpec` with no requested outputs (new value = old −
+fee), always on the cooperative path, and records the new expiry, which lies in the window. -/
+theorem C07_renew_conserves (so : ScriptOf) (hso : ScriptLen34 so) (a : Account) (newExpiry : UInt32)
+    (rate : Int) (best : UInt32) (nv : Nat) (f : Faults)
+    (h : (renew so a newExpiry rate best nv f).refusal = none) :
+    (a.state = StateOpen ∨ a.state = StateExpired) ∧ a.version ≤ nv ∧
+    (best.toNat + 144 ≤ newExpiry.toNat ∧ newExpiry.toNat ≤ best.toNat + 52560) ∧
+    ModifySpec so a [] rate (if a.version ≥ VersionTaprootEnabled then wt_muSig2Taproot else wt_multiSigWitness)
+      (some newExpiry) nv (renew so a newExpiry rate best nv f) := by
+  obtain ⟨hs, hv, hexp, v, hvau, heq⟩ := renew_inv h
+  rw [heq] at h ⊢
+  exact ⟨hs, hv, expiry_window _ _ hexp, modify_spec hso (by decide : Action.renew ≠ .close) hvau h⟩
+
+/-! ## refusals -/
+
+/-- **C07_refusals_no_effect**: if an operation leaves ANY effect (auctioneer request, store write or broadcast),
+every check the property lists had passed.  Contrapositive: a request on an account in the wrong state, lowering
+the version, with an expiry outside the window, leaving less than `MinAccountValue`, exceeding the auctioneer's
+maximum, or creating a dust / negative output has an EMPTY effect trace (and is refused: an accepted operation
+always writes and broadcasts, see the `…_conserves` theorems). -/
+theorem C07_refusals_no_effect (so : ScriptOf) (a : Account) (best : UInt32) (f : Faults) :
+    -- withdrawal
+    (∀ outputs rate eh nv, (withdraw so a outputs rate best eh nv f).trace ≠ [] →
+      a.state = StateOpen ∧ a.version ≤ nv ∧
+      (eh ≠ 0 → best.toNat + 144 ≤ eh.toNat ∧ eh.toNat ≤ best.toNat + 52560) ∧
+      (∃ v, valueAfterAccountUpdate a.value outputs (determineWitnessType a best) rate = .ok v ∧
+        (MinAccountValue : Int) ≤ v) ∧
+      (∀ o ∈ outputs, isDustOutput o = false ∧ 0 ≤ o.value)) ∧
+    -- renewal
+    (∀ newExpiry rate nv, (renew so a newExpiry rate best nv f).trace ≠ [] →
+      (a.state = StateOpen ∨ a.state = StateExpired) ∧ a.version ≤ nv ∧
+      (best.toNat + 144 ≤ newExpiry.toNat ∧ newExpiry.toNat ≤ best.toNat + 52560) ∧
+      (∃ v, valueAfterAccountUpdate a.value []
+          (if a.version ≥ VersionTaprootEnabled then wt_muSig2Taproot else wt_multiSigWitness) rate = .ok v ∧
+        (MinAccountValue : Int) ≤ v)) ∧
+    -- closure
+    (∀ fe ws, (close so a fe ws best f).trace ≠ [] →
+      ¬ (a.state = StatePendingClosed ∨ a.state = StateClosed) ∧
+      ∃ outs, fe.closeOutputs ws a.value (determineWitnessType a best) = .ok outs ∧
+        (∀ o ∈ outs, isDustOutput o = false ∧ 0 ≤ o.value) ∧ sumValues outs ≤ a.value) ∧
+    -- deposit
+    (∀ amount rate eh nv maxValue fd, (deposit so a amount rate best eh nv maxValue fd f).trace ≠ [] →
+      a.state = StateOpen ∧ a.version ≤ nv ∧
+      (eh ≠ 0 → best.toNat + 144 ≤ eh.toNat ∧ eh.toNat ≤ best.toNat + 52560) ∧
+      (∃ maxV, maxValue = some maxV ∧ a.value + amount ≤ maxV) ∧
+      ∃ ne tx, inputsForDeposit so a (createNewAccountOutput so a (a.value + amount) ne nv).1 amount
+          (determineWitnessType a best) rate fd = .ok tx ∧
+        (∀ o ∈ tx.outputs, isDustOutput o = false ∧ 0 ≤ o.value)) := by
+  refine ⟨?_, ?_, ?_, ?_⟩
+  · intro outputs rate eh nv h
+    obtain ⟨hs, hv, ne, v, hne, hvau, heq⟩ := withdraw_trace_inv h
+    rw [heq] at h
+    obtain ⟨_, _, lock, _, hsan, _⟩ := spendAccount_trace_prepared h
+    obtain ⟨_, _, hrange, _, hdust, _⟩ := sanityCheck_ok hsan
+    obtain ⟨_, _, _, _, _, hmin⟩ := vau_ok hvau
+    refine ⟨hs, hv, optExpiry_window hne expiry_window, ⟨v, hvau, hmin⟩, ?_⟩
+    intro o ho
+    have hm : o ∈ sortBy outLt ((createNewAccountOutput so a v ne nv).1 :: outputs) :=
+      (sortBy_perm _ _).mem_iff.mpr (List.mem_cons_of_mem _ ho)
+    exact ⟨hdust o hm, (hrange o hm).1⟩
+  · intro newExpiry rate nv h
+    obtain ⟨hs, hv, hexp, v, hvau, _⟩ := renew_trace_inv h
+    obtain ⟨_, _, _, _, _, hmin⟩ := vau_ok hvau
+    exact ⟨hs, hv, expiry_window _ _ hexp, v, hvau, hmin⟩
+  · intro fe ws h
+    obtain ⟨hs, outs, ho, heq⟩ := close_trace_inv h
+    rw [heq] at h
+    obtain ⟨_, _, lock, _, hsan, _⟩ := spendAccount_trace_prepared h
+    obtain ⟨_, _, hrange, _, hdust, inT, w, hin, hle, _⟩ := sanityCheck_ok hsan
+    have hin' : sanityInputs a (determineWitnessType a best) [a.txIn so] 0 0 = .ok (inT, w) := hin
+    obtain ⟨hinT, _⟩ := sanityInputs_single hin'
+    refine ⟨hs, outs, ho, ?_, ?_⟩
+    · intro o hmem
+      have hm : o ∈ sortBy outLt outs := (sortBy_perm _ _).mem_iff.mpr hmem
+      exact ⟨hdust o hm, (hrange o hm).1⟩
+    · have : sumValues (sortBy outLt outs) = sumValues outs := sumValues_perm (sortBy_perm _ _)
+      have hle' : sumValues (sortBy outLt outs) ≤ inT := hle
+      omega
+  · intro amount rate eh nv maxValue fd h
+    obtain ⟨hs, hv, maxV, ne, tx, hmax, hle, hne, htx, heq⟩ := deposit_trace_inv h
+    rw [heq] at h
+    obtain ⟨_, _, lock, _, hsan, _⟩ := spendAccount_trace_prepared h
+    obtain ⟨_, _, hrange, _, hdust, _⟩ := sanityCheck_ok hsan
+    exact ⟨hs, hv, optExpiry_window hne expiry_window, ⟨maxV, hmax, hle⟩, ne, tx, htx,
+      fun o ho => ⟨hdust o ho, (hrange o ho).1⟩⟩
+
 end Pool.C07
